@@ -150,6 +150,34 @@ func knownRootCause(tc tamperCase, orig *lib.Bundle) (string, string) {
 	return "", ""
 }
 
+// skippedPosition attributes an accepted transaction-field tampering to its cause: if
+// core.VerifyTransactions rejects the tampered transaction when it is the only one in the list, the
+// field IS bound by the transaction hash and the block was accepted because the verification did not
+// look at that position (e.g. the remainder of a chunked loop) — not because of the field.
+func skippedPosition(g *lib.ChainGen, tc tamperCase, orig *lib.Bundle) (string, string) {
+	if !strings.HasPrefix(tc.Name, "field:.Block.Transactions[]<") {
+		return "", ""
+	}
+	m := idxRe.FindStringSubmatch(strings.TrimPrefix(tc.Detail, ""))
+	if m == nil {
+		return "", ""
+	}
+	i, _ := strconv.Atoi(m[2])
+	if i >= len(tc.Bundle.Block.Transactions) {
+		return "", ""
+	}
+	tx := tc.Bundle.Block.Transactions[i]
+	err, panicked, _ := lib.Try(func() error {
+		return core.VerifyTransactions([]core.Transaction{tx}, g.Net, tc.Bundle.Block.ProtocolVersion)
+	})
+	if err != nil && !panicked {
+		return "transaction-not-verified-at-its-position",
+			fmt.Sprintf("transaction %d of %d was tampered in a field its hash commits (alone, VerifyTransactions rejects it: %v) and the block was stored: hash verification skipped that position",
+				i, len(tc.Bundle.Block.Transactions), err)
+	}
+	return "", ""
+}
+
 // ---- node handling -----------------------------------------------------------------------------
 
 func dbDigest(d *memory.Database) [32]byte {
@@ -806,6 +834,10 @@ func runTask(f lib.Flags, res *lib.Result, task chainTask, only *replay) {
 					res.Hit("uncommitted-accepted")
 					res.Hit("exception:" + tc.Why)
 				case r.err == nil:
+					if sig, what := skippedPosition(g, tc, valid); sig != "" {
+						violate(sig, fmt.Sprintf("%s (%s; block %d, format %s, backend %s)", what, tc.Detail, pos, format, backend), rp)
+						break
+					}
 					if sig, what := knownRootCause(tc, valid); sig != "" {
 						violate(sig, fmt.Sprintf("%s (%s; block %d, format %s, backend %s)", what, tc.Detail, pos, format, backend), rp)
 						break
